@@ -292,8 +292,9 @@ class AppNamespace(object):
 
         self.open_mailbox(mailbox_id, side, when) # may raise CrowdedError
         rows = db.execute("SELECT * FROM `nameplate_sides`"
-                          " WHERE `nameplates_id`=?", (npid,)).fetchall()
-        if len(rows) > 2:
+                          " WHERE `nameplates_id`=? ORDER BY rowid",
+                          (npid,)).fetchall()
+        if len(rows) > 2 and side not in [row["side"] for row in rows[:2]]:
             # this line will probably never get hit: any crowding is noticed
             # on mailbox_sides first, inside open_mailbox()
             raise CrowdedError("too many sides have claimed this nameplate")
@@ -402,9 +403,11 @@ class AppNamespace(object):
         mailbox.open(side, when)
         db.commit()
         rows = db.execute("SELECT * FROM `mailbox_sides`"
-                          " WHERE `mailbox_id`=?",
+                          " WHERE `mailbox_id`=? ORDER BY rowid",
                           (mailbox_id,)).fetchall()
-        if len(rows) > 2:
+        # only sides beyond the first two are refused: the record of a
+        # refused third side must not lock out the two that came first
+        if len(rows) > 2 and side not in [row["side"] for row in rows[:2]]:
             raise CrowdedError("too many sides have opened this mailbox")
         return mailbox
 
